@@ -134,6 +134,18 @@ func ruleE2(c *Ctx) []Ob {
 						if g, ok := x.X.(*ssa.Call); !ok || !isPoolCall(g, "Get") {
 							okSrc = false
 						}
+					case *ssa.Call:
+						// an acquiring helper: every value it returns comes from the pool
+						af := x.Call.StaticCallee()
+						if af == nil || af.Blocks == nil || af.Signature.Results().Len() != 1 || len(seen) > 8 {
+							okSrc = false
+							break
+						}
+						for _, ab := range af.Blocks {
+							if ret, ok := ab.Instrs[len(ab.Instrs)-1].(*ssa.Return); ok {
+								walk(unspill(ret.Results[0], ab))
+							}
+						}
 					default:
 						okSrc = false
 					}
@@ -263,6 +275,42 @@ func e2GetSite(c *Ctx, s *obSink, fn *ssa.Function, get *ssa.Call) {
 	} else {
 		s.check(types.Identical(newT, obj.Type()), key+":assert", pos, "asserted type "+obj.Type().String()+" is what New returns", "asserted type "+obj.Type().String()+" differs from what New returns ("+newT.String()+")")
 	}
+	e2Track(c, s, fn, get, obj, pname, spec, key, false, 0)
+}
+
+// releaseParam: f puts its k-th parameter back into the pool named pname on every path (a release helper); -1 otherwise.
+func releaseParam(f *ssa.Function, pname string) int {
+	if f == nil || f.Blocks == nil {
+		return -1
+	}
+	for _, b := range f.Blocks {
+		for _, ins := range b.Instrs {
+			ci, ok := ins.(ssa.CallInstruction)
+			if !ok || !isPoolCall(ci, "Put") || len(ci.Common().Args) != 2 || poolName(ci.Common().Args[0]) != pname {
+				continue
+			}
+			if _, isDefer := ins.(*ssa.Defer); !isDefer && !b.Dominates(exitBlockOf(f)) {
+				continue
+			}
+			mi, ok := ci.Common().Args[1].(*ssa.MakeInterface)
+			if !ok {
+				continue
+			}
+			for k, prm := range f.Params {
+				if aliasSet(prm)[mi.X] {
+					return k
+				}
+			}
+		}
+	}
+	return -1
+}
+
+// e2Track checks the life of one pooled object in fn from the instruction that produced it (the Get, or the call of an
+// acquiring helper that hands the object out): privacy, Put pairing, use after Put, and - unless the helper already did it -
+// the pool's reset obligation.
+func e2Track(c *Ctx, s *obSink, fn *ssa.Function, get ssa.Instruction, obj ssa.Value, pname string, spec poolSpec, key string, resetDone bool, depth int) {
+	pos := c.InstrPos(get)
 	al := aliasSet(obj)
 	// a helper that zeroes its argument and hands it back (resetType) continues the object's life
 	resetBy := map[*ssa.Call]bool{}
@@ -295,13 +343,13 @@ func e2GetSite(c *Ctx, s *obSink, fn *ssa.Function, get *ssa.Call) {
 				for _, rr := range referrers(x) {
 					switch y := rr.(type) {
 					case *ssa.Defer:
-						if isPoolCall(y, "Put") && len(y.Call.Args) == 2 && path(y.Call.Args[0]) == path(pool) {
+						if isPoolCall(y, "Put") && len(y.Call.Args) == 2 && poolName(y.Call.Args[0]) == pname {
 							puts = append(puts, y)
 							deferred = true
 							okPut = true
 						}
 					case *ssa.Call:
-						if isPoolCall(y, "Put") && len(y.Call.Args) == 2 && path(y.Call.Args[0]) == path(pool) {
+						if isPoolCall(y, "Put") && len(y.Call.Args) == 2 && poolName(y.Call.Args[0]) == pname {
 							puts = append(puts, y)
 							okPut = true
 						}
@@ -310,9 +358,24 @@ func e2GetSite(c *Ctx, s *obSink, fn *ssa.Function, get *ssa.Call) {
 				if !okPut {
 					private, why = false, "object converted to an interface at "+c.InstrPos(x)
 				}
+			case *ssa.Defer:
+				if f := x.Call.StaticCallee(); f != nil {
+					if k := releaseParam(f, pname); k >= 0 && k < len(x.Call.Args) && al[x.Call.Args[k]] {
+						puts = append(puts, x)
+						deferred = true
+						continue
+					}
+				}
+				private, why = false, "object captured by a deferred call at "+c.InstrPos(x)
 			case *ssa.Call:
 				if resetBy[x] {
 					continue
+				}
+				if f := x.Call.StaticCallee(); f != nil {
+					if k := releaseParam(f, pname); k >= 0 && k < len(x.Call.Args) && al[x.Call.Args[k]] {
+						puts = append(puts, x)
+						continue
+					}
 				}
 				// allowed: receiver of a static method of its own type, or reflect.Value method through load
 				f := x.Call.StaticCallee()
@@ -336,10 +399,61 @@ func e2GetSite(c *Ctx, s *obSink, fn *ssa.Function, get *ssa.Call) {
 			}
 		}
 	}
-	if returned {
+	if returned && spec.reset == "zero-struct" {
 		// factory pool: ownership moves to the caller; needs a whole-object reset on the path
 		okReset := len(resetBy) > 0
-		s.check(okReset && spec.reset == "zero-struct", key+":reset", pos, "pooled object is zeroed (*p = T{}) before it is handed out", "pooled object is handed out without being zeroed")
+		s.check(okReset, key+":reset", pos, "pooled object is zeroed (*p = T{}) before it is handed out", "pooled object is handed out without being zeroed")
+		return
+	}
+	if returned {
+		// an acquiring helper: the object's life continues in every caller, which owes the Put (and the reset, unless it
+		// is done here before the object is handed out)
+		if depth > 1 {
+			s.undec(key+":handoff", pos, "pooled object handed out through more than two levels of helpers")
+			return
+		}
+		s.check(private, key+":private", pos, "pooled object stays private to the helper until it is handed out", "pooled object escapes the call: "+why)
+		s.check(len(puts) == 0, key+":put", pos, "the helper hands the object out without putting it back", "the object is both put back and handed out")
+		idx := -1
+		for _, b := range fn.Blocks {
+			if ret, ok := b.Instrs[len(b.Instrs)-1].(*ssa.Return); ok {
+				for i, rv := range ret.Results {
+					if al[unspill(rv, b)] {
+						idx = i
+					}
+				}
+			}
+		}
+		done := resetDone || e2ResetOK(c, fn, get, al, spec, nil)
+		ncall := 0
+		for _, caller := range c.ModuleFuncs(pkgReflect, pkgDefs) {
+			for _, cb := range caller.Blocks {
+				for _, ins := range cb.Instrs {
+					call, ok := ins.(*ssa.Call)
+					if !ok || call.Call.StaticCallee() != fn {
+						continue
+					}
+					ncall++
+					var obj2 ssa.Value
+					if fn.Signature.Results().Len() == 1 {
+						obj2 = call
+					} else {
+						for _, r := range referrers(call) {
+							if ex, ok := r.(*ssa.Extract); ok && ex.Index == idx {
+								obj2 = ex
+							}
+						}
+					}
+					k2 := shortFn(caller) + ":" + pname
+					if obj2 == nil {
+						s.bad(k2+":put", c.InstrPos(call), "the pooled object handed out by "+fn.Name()+" is dropped: it is never put back")
+						continue
+					}
+					e2Track(c, s, caller, call, obj2, pname, spec, k2, done, depth+1)
+				}
+			}
+		}
+		s.check(ncall > 0, key+":handoff", pos, fmt.Sprintf("object handed out to %d call site(s), each checked", ncall), "acquiring helper is never called")
 		return
 	}
 	s.check(private, key+":private", pos, "pooled object stays private to the call", "pooled object escapes the call: "+why)
@@ -452,11 +566,29 @@ func e2GetSite(c *Ctx, s *obSink, fn *ssa.Function, get *ssa.Call) {
 		}
 	}
 	// (d) reset obligation
+	if resetDone {
+		s.ok(key+":reset", pos, "reset by the acquiring helper before the object is handed out")
+		return
+	}
+	var msg string
+	good := e2ResetOK(c, fn, get, al, spec, &msg)
+	if spec.reset != "none" && spec.reset != "slots" && spec.reset != "reset-call" && spec.reset != "unset-loop" && spec.reset != "set-whole" {
+		s.undec(key+":reset", pos, "no reset rule for this pool")
+		return
+	}
+	s.check(good, key+":reset", pos, spec.note, msg)
+}
+
+// e2ResetOK evaluates the pool's reset obligation for the object (alias set al) produced by instruction get in fn.
+func e2ResetOK(c *Ctx, fn *ssa.Function, get ssa.Instruction, al map[ssa.Value]bool, spec poolSpec, why *string) bool {
+	setWhy := func(m string) {
+		if why != nil {
+			*why = m
+		}
+	}
 	switch spec.reset {
-	case "none":
-		s.ok(key+":reset", pos, spec.note)
-	case "slots":
-		s.ok(key+":reset", pos, spec.note)
+	case "none", "slots":
+		return true
 	case "reset-call":
 		var reset *ssa.Call
 		var users []*ssa.Call
@@ -482,7 +614,8 @@ func e2GetSite(c *Ctx, s *obSink, fn *ssa.Function, get *ssa.Call) {
 				}
 			}
 		}
-		s.check(good, key+":reset", pos, "Reset() directly after Get, before every Add/Size/Copy", "the recorder taken from the pool is not Reset() right after Get and before its first use: extents of an earlier (possibly failed) decode would be applied to this buffer")
+		setWhy("the recorder taken from the pool is not Reset() right after Get and before its first use: extents of an earlier (possibly failed) decode would be applied to this buffer")
+		return good
 	case "unset-loop":
 		// a range loop over <sd>.requiredFieldIDs calling unset(obj, elem), whose exit dominates every set/test
 		var unset *ssa.Call
@@ -532,7 +665,8 @@ func e2GetSite(c *Ctx, s *obSink, fn *ssa.Function, get *ssa.Call) {
 				}
 			}
 		}
-		s.check(good, key+":reset", pos, "required bits are cleared before the field loop", msg)
+		setWhy(msg)
+		return good
 	case "set-whole":
 		// reflect.Value.Set(Elem(load obj), rv) before the pointer is extracted
 		good := false
@@ -561,10 +695,10 @@ func e2GetSite(c *Ctx, s *obSink, fn *ssa.Function, get *ssa.Call) {
 				}
 			}
 		}
-		s.check(good, key+":reset", pos, "the pooled value is overwritten as a whole ((*prv).Elem().Set(rv)) before its address is used", "the pooled copy is not overwritten by Elem().Set(rv) before its address is taken: the encoder would read a previous call's value")
-	default:
-		s.undec(key+":reset", pos, "no reset rule for this pool")
+		setWhy("the pooled copy is not overwritten by Elem().Set(rv) before its address is taken: the encoder would read a previous call's value")
+		return good
 	}
+	return false
 }
 
 // reachesAvoiding: to is reachable from from without entering block avoid.
